@@ -8,3 +8,10 @@ EVIDENCE = os.path.join(VERIF, 'evidence')
 REPLAYS = os.path.join(VERIF, 'replays')
 CORPUS = os.path.join(VERIF, 'corpus')
 ALLOWED_AXIOMS = {'propext', 'Classical.choice', 'Quot.sound'}
+
+# The implementation under test is REPO's working tree.  REPO/supybot is a symlink to REPO/src, so
+# putting REPO first on sys.path makes `import supybot` resolve there (default /repo, which is also
+# what the venv's editable install points at; VERIF_REPO=<worktree> checks a scratch copy instead).
+import sys as _sys
+if REPO not in _sys.path:
+    _sys.path.insert(0, REPO)
